@@ -6,6 +6,7 @@ touch indentation or the first line.
 """
 from __future__ import annotations
 
+import os
 import re
 from collections import Counter
 
@@ -25,7 +26,13 @@ RENAMES = [("work_", "call_"), ("val_", "tmp_"), ("cond_", "gate_"), ("it_", "el
 def e_insert(rng, text, lang, protect_top=0):
     lines = text.split("\n")
     n = len(lines)
-    inserts = sorted(rng.sample(range(max(2, protect_top + 1), n + 1), min(rng.randint(1, 6), max(0, n - max(2, protect_top + 1) + 1))))
+    lo = max(2, protect_top + 1)
+    inserts = rng.sample(range(lo, n + 1), min(rng.randint(1, 6), max(0, n - lo + 1)))
+    # boundaries where an extra sibling matters most to a tree walker: right after a return / break / continue, right before a closing brace
+    hot = [i + 1 for i, ln in enumerate(lines, 1) if lo <= i + 1 <= n and (re.match(r"\s*(return|break|continue)\b", ln) or (i < n and lines[i].strip().startswith("}")))]
+    if hot and rng.random() < 0.6:
+        inserts += rng.sample(hot, min(len(hot), rng.randint(1, 3)))
+    inserts = sorted(set(inserts))
     out, shift_at = [], []
     k = 0
     for i, ln in enumerate(lines, 1):
@@ -96,8 +103,57 @@ EDITS = {"insert": e_insert, "trailing-ws": e_trailing_ws, "crlf": e_crlf, "bom"
 
 
 # ----------------------------------------------------------------------------- bases
+def gen_cqs(rng, idx):
+    """Python and TypeScript functions/methods for the library-only `cqs` rule: mixed (reported), query-only, command-only, fluent (mixed but returning
+    self/this: exempt) and constructor (exempt) - the rule has no CLI command, it is observed through the library API."""
+    py, ts = ['"""Generated CQS module."""', ""], ["// Generated CQS module", ""]
+    for k in range(rng.randint(2, 6)):
+        cat = rng.choice(["mixed", "mixed", "query", "command"])
+        py.append("def %s_%d_%d(a):" % (cat, idx, k))
+        ts.append("function %s_%d_%d(a: number): void {" % (cat, idx, k))
+        if cat in ("mixed", "query"):
+            py.append("    data_%d = fetch_%d(a)" % (k, k))
+            ts.append("  const data_%d = fetch_%d(a);" % (k, k))
+            if rng.random() < 0.5:
+                py.append("    more_%d = check_%d(data_%d)" % (k, k, k))
+                ts.append("  const more_%d = check_%d(data_%d);" % (k, k, k))
+        if cat in ("mixed", "command"):
+            py.append("    save_%d(a)" % k)
+            ts.append("  save_%d(a);" % k)
+            if rng.random() < 0.5:
+                py.append("    notify_%d(a)" % k)
+                ts.append("  notify_%d(a);" % k)
+        py += ["", ""]
+        ts += ["}", ""]
+    py.append("class Builder_%d:" % idx)
+    ts.append("class Builder_%d {" % idx)
+    py += ["    def __init__(self, a):", "        self.base = load_base(a)", "        register(self)", ""]
+    for k in range(rng.randint(1, 4)):
+        fluent = rng.random() < 0.7
+        py += ["    def with_part_%d(self, a):" % k, "        part_%d = make_part(a)" % k, "        self.attach(part_%d)" % k] + (["        return self"] if fluent else []) + [""]
+        ts += ["  withPart_%d(a: number)%s {" % (k, ": this" if fluent else ": void"), "    const part_%d = makePart(a);" % k, "    this.attach(part_%d);" % k] + (["    return this;"] if fluent else []) + ["  }", ""]
+    ts.append("}")
+    return "\n".join(py) + "\n", "\n".join(ts) + "\n"
+
+
+def lib_cqs(d):
+    """Runs in a forked child: everything the library API reports for rule `cqs` under d."""
+    from src import Linter
+
+    os.chdir(d)
+    out = []
+    for v in Linter(project_root=d).lint(d):
+        if str(v.rule_id).startswith("cqs"):
+            fp = str(v.file_path)
+            out.append({"rule_id": v.rule_id, "file_path": os.path.relpath(fp, d) if os.path.isabs(fp) else os.path.normpath(fp), "line": v.line, "column": v.column, "message": v.message})
+    return out
+
+
 def make_base(rng, idx):
-    kind = idx % 6
+    kind = idx % 7
+    if kind == 6:
+        py, ts = gen_cqs(rng, idx)
+        return {"idx": idx, "kind": kind, "files": {"pkg/q%d.py" % idx: py, "pkg/q%d.ts" % idx: ts}, "cfg": {}, "cmds": ["lib:cqs"]}
     files, cfg, cmds, names_matter = {}, {}, [], False
     if kind == 0:
         L = rng.randint(2, 4)
@@ -143,7 +199,7 @@ def make_case(rng, idx):
         seq = [e for e in seq if e != "crlf"] + ["crlf"]  # line-ending conversion last, so the file stays consistently CRLF
     if base["kind"] == 5:
         seq = [e for e in seq if e not in ("rename", "reindent")] or ["insert"]  # trigger files contain names that rules inspect; hand-written layout
-    if base["kind"] == 4:
+    if base["kind"] in (4, 6):
         seq = [e for e in seq if e != "rename"] or ["insert"]
     edited = {}
     maps = {}
@@ -175,6 +231,10 @@ def exec_case(case):
         runner.write_tree(d, fs)
         res = {}
         for cmd in case["cmds"]:
+            if cmd == "lib:cqs":
+                o = runner.call(lib_cqs, d, timeout=120)
+                res[cmd] = {"exit": 0 if o.get("ok") else 3, "v": o.get("value") if o.get("ok") else None, "err": str(o)[-300:] if not o.get("ok") else "", "swallowed": 0}
+                continue
             r = runner.cli([cmd, "--format", "json", "."], d)
             vs = r.violations()
             res[cmd] = {"exit": r.exit, "v": vs, "err": r.err[-200:] if vs is None else "", "swallowed": len(r["swallowed"])}
@@ -190,6 +250,8 @@ def msg_norm(rule, msg, renamed):
         return msg.split(":")[0]  # these messages quote the source line
     if rule.startswith("stringly-typed"):
         return re.sub(r":\d+", ":N", msg)
+    if rule.startswith("cqs"):
+        return re.sub(r"Line \d+", "Line N", msg)  # the message lists the lines of the operations, which legitimately move
     return msg
 
 
